@@ -70,6 +70,9 @@ Cfgs == CASE CfgSet = "default" -> {Default}
           [] CfgSet = "style"   -> {Default} \cup {With(Default, d) : d \in StyleDeviations}
           [] CfgSet = "align"   -> {Default, With(Default, <<"align_trailing_comment", TRUE>>),
                                     With(With(Default, <<"align_trailing_comment", TRUE>>), <<"trailing_comment_width", 3>>)}
+          [] CfgSet = "sort"    -> {Default, With(Default, <<"sort_declaration", TRUE>>), With(Default, <<"align_trailing_comment", TRUE>>),
+                                    With(With(Default, <<"sort_declaration", TRUE>>), <<"sort_declaration_property", TRUE>>),
+                                    With(With(Default, <<"sort_declaration", TRUE>>), <<"comment_style", "slash">>)}
           [] CfgSet = "pairs"   -> {Default} \cup Pairs
           [] CfgSet = "any"     -> {Default}      \* simulation draws RandomCfg instead
 
@@ -183,6 +186,10 @@ SinkD(s, j) == IF j > 1 /\ DeclKey(s[j]) < DeclKey(s[j - 1])
 RECURSIVE SortDeclsFrom(_, _)
 SortDeclsFrom(s, i) == IF i > Len(s) THEN s ELSE SortDeclsFrom(SinkD(s, i), i + 1)
 
+DropFirst(body) == IF body # <<>> /\ body[1].k = "block" THEN [body EXCEPT ![1].p_blank = FALSE] ELSE body
+FirstBlockBlank(y) ==
+  CASE y.k \in {"sub", "block", "else", "case"} -> [y EXCEPT !.body = DropFirst(@)]
+    [] y.k \in {"elif", "if"} -> [y EXCEPT !.then = DropFirst(@)]
 RECURSIVE Norm(_, _, _)
 Norm(x, c, fn) ==
   LET y == [f \in DOMAIN x |->
@@ -195,7 +202,8 @@ Norm(x, c, fn) ==
             [y EXCEPT !.p_paren = c.return_statement_parenthesis /\ ~fn]
        [] y.k = "infix" /\ y.op = "+" -> [y EXCEPT !.p_explicit = c.explicit_string_concat]    \* formatInfixExpression
        [] y.k = "tprop" -> [y EXCEPT !.p_comma = TRUE]                                         \* EndCharacter ","
-       [] y.k = "block" -> [y EXCEPT !.p_blank = FALSE]          \* formatStatement: a bare block ignores PreviousEmptyLines
+       \* formatStatement: a bare block gets its empty line only from the line grouping, i.e. not as the first statement
+       [] y.k \in {"sub", "block", "else", "elif", "if", "case"} -> FirstBlockBlank(y)
        [] y.k \in {"backend", "director", "table", "probe"} /\ c.sort_declaration_property -> [y EXCEPT !.props = SortProps(@)]
        [] y.k = "dbackend" /\ c.sort_declaration_property -> [y EXCEPT !.props = InsSortFrom(@, 2)]
        [] OTHER -> y
